@@ -6,7 +6,8 @@ META = {
             'the successful requests to a serial order and no joint over-commit, instantiated for the generation-guarded and '
             'allocation-writing programs under an explicit hypothesis that excludes the transient-consumer patterns recorded as '
             'known findings (theorem _partial); tied to the code by exhaustive interleavings with a serial-permutation oracle '
-            'evaluated on the real application.',
+            'evaluated on the real application; the retry loop of replace_all is translated from its AST and proved to end only in a '
+            'successful attempt or the conflict (allocation_write_succeeds_only_by_a_successful_attempt).',
     'level_note': 'trusted: Lean kernel; scheduler = serializable DBMS at transaction granularity; _partial: consumer creation is not auxiliary state.',
     'technique': 'Lean 4 proof (serializability by commit order) + exhaustive interleaving exploration with serial-permutation oracle',
     'design_ref': 'DESIGN.md section 5, C07',
